@@ -232,7 +232,33 @@ def run(ctx):
                     continue
             r.fail(fi, node, norm(node), "%s mutates the process-wide container %s: state survives from one run / render to the next"
                    % (fi.short, slot.split("clikit.", 1)[-1]))
+    shared_objects_rule(ctx, "C17-R7", lambda modname: True, reference=56)
     return ctx.results
+
+
+def shared_objects_rule(ctx, rule_id, mod_pred, reference=None):
+    p = ctx.p
+    # ---------------------------------------------------------------- R7
+    r = ctx.rule(rule_id, "OWNER", "no object with state is created once and shared by all instances / calls: "
+                 "class-level attributes and parameter defaults are constants, not constructed objects", reference=reference)
+    for ci in sorted([c for c in p.classes.values() if mod_pred(c.module.name)], key=lambda c: c.qualname):
+        for name, val in sorted(ci.attrs.items()):
+            if isinstance(val, ast.Call) and isinstance(val.func, (ast.Name, ast.Attribute)):
+                tgt = p.resolve_class_expr(ci.module, val.func)
+                if isinstance(tgt, type(ci)):
+                    # an instance of a package class shared by every instance of ci
+                    stateful = any(not m.is_property for m in tgt.methods.values())
+                    init = ci.methods.get("__init__") or next(iter(ci.methods.values()), None)
+                    if stateful and init is not None:
+                        r.fail(init, val, "%s.%s = %s" % (ci.name, name, norm(val)), "%s.%s is one %s object shared by all instances for the life of the process: whatever it "
+                               "accumulates (e.g. a formatter's open style tags) carries over from one render to the next" % (ci.name, name, tgt.name))
+                        continue
+            r.ok("%s.%s is a constant / constant container" % (ci.name, name)) if not isinstance(val, ast.Call) else r.ok("%s.%s built from builtins" % (ci.name, name))
+    for fi in [f for f in p.all_functions() if mod_pred(f.module.name)]:
+        for prm, d in sorted(fi.defaults.items()):
+            if isinstance(d, (ast.List, ast.Dict, ast.Set)) or (isinstance(d, ast.Call)):
+                r.fail(fi, d, "%s(%s=%s)" % (fi.name, prm, norm(d)), "the default of %s.%s is evaluated once and shared by all calls" % (fi.short, prm))
+    return r
 
 
 def _is_container(val):
